@@ -21,6 +21,7 @@ from lib import vlib
 from lib.vlib import log
 
 GEN = [("p3", "Gen_GossipPeers.cfg"), ("p2", "Gen_GossipPeers_2.cfg"), ("p4", "Gen_GossipPeers_4.cfg")]
+GEN_TLS = [("t3", "Gen_GossipPeers_tls.cfg"), ("t2", "Gen_GossipPeers_tls2.cfg")]     # TLS gossip transport + connection resets
 CLASSES = {"C19": ("delivery", "join"), "C08": ("ready",)}
 
 # (configuration, timeout s, expected violated invariant or None, tier)
@@ -28,6 +29,8 @@ MC = [("MC_GossipPeers.cfg", 200, None, "quick"), ("MC_GossipPeers_small.cfg", 3
       ("MC_GossipPeers_ready.cfg", 200, None, "quick"),
       ("MC_GossipPeers_cached.cfg", 200, "Delivered", "quick"), ("MC_GossipPeers_stuck.cfg", 200, "Readiness", "quick"),
       ("MC_GossipPeers_wide.cfg", 200, "DeliveredStrict", "quick"),
+      ("MC_GossipPeers_tls.cfg", 300, None, "quick"), ("MC_GossipPeers_noredial.cfg", 200, "Delivered", "quick"),
+      ("MC_GossipPeers_tls3.cfg", 900, None, "thorough"),
       ("MC_GossipPeers_mixed.cfg", 600, None, "thorough"), ("MC_GossipPeers_4s.cfg", 900, None, "thorough"), ("MC_GossipPeers_ready_full.cfg", 900, None, "thorough"),
       ("MC_GossipPeers_3.cfg", 1800, None, "thorough"), ("MC_GossipPeers_4.cfg", 1800, None, "thorough")]
 
@@ -96,6 +99,15 @@ def features(h):
             lastbig[n] = L
             if stops:
                 f.add("big_after_stop")
+        if op == "resetin":
+            f.add("reset")
+            p = e["n"]
+            for y in h[i + 1:]:
+                e2 = y["e"]
+                # a later small update of a sender whose pooled connection to p was reset, p connected, both run to the end
+                if e2["op"] == "bcast" and not e2["big"] and e2["n"] in e["broke"] and p in e2["conn"] and \
+                   h[-1]["life"][p] == "up" and h[-1]["life"][e2["n"]] == "up":
+                    f.add("reset_before_small")
         if op in ("left", "crashed"):
             stops += 1
             f.add(op)
@@ -177,10 +189,12 @@ def run_real_peers(pid, tier, v):
     def g(p):
         name, cfg = p
         return _gen(pid, name, cfg, os.path.join(wd, "genp_%s.jsonl" % name), num, seed, 600 if thorough else 120)
-    with concurrent.futures.ThreadPoolExecutor(max_workers=3) as ex:
-        gens = list(ex.map(g, GEN))
-    if min(len(x) for x in gens) < (1000 if thorough else 150):
-        raise vlib.Inconclusive("Gen_GossipPeers produced too few schedules: %s" % [len(x) for x in gens])
+    with_tls = pid == "C19"
+    with concurrent.futures.ThreadPoolExecutor(max_workers=5) as ex:
+        gens_all = list(ex.map(g, GEN + (GEN_TLS if with_tls else [])))
+    gens, gens_tls = gens_all[:len(GEN)], gens_all[len(GEN):]
+    if min(len(x) for x in gens_all) < (1000 if thorough else 150):
+        raise vlib.Inconclusive("Gen_GossipPeers produced too few schedules: %s" % [len(x) for x in gens_all])
     lines = [ln for x in zip(*gens) for ln in x]        # interleave 3 / 2 / 4 initial peers
     if pid == "C08":
         total = 400 if thorough else 18
@@ -190,6 +204,24 @@ def run_real_peers(pid, tier, v):
         quota = [("replaced_before_big", total // 3), ("settle_timeout", total // 6), ("restart", total // 8),
                  ("reconnect", total // 10), ("crashed", total // 4)]
     chosen = select(lines, quota, total, seed)
+    if with_tls:
+        # the transport dimension: schedules generated with Transport = "tls" (connection resets), and TLS twins of
+        # some of the schedules above (the same operations over the other transport); one TLS schedule after two others
+        ttotal = 300 if thorough else 12
+        tls = select([ln for x in zip(*gens_tls) for ln in x], [("reset_before_small", ttotal * 3 // 4), ("restart", ttotal // 6)], ttotal, seed)
+        for ln, fs in chosen[:(100 if thorough else 4)]:
+            h = json.loads(ln)
+            h[0]["e"]["transport"] = "tls"
+            tls.append((json.dumps(h), set(fs) | {"tls_twin"}))
+        tls = [(ln, set(fs) | {"tls"}) for ln, fs in tls]
+        total += len(tls)
+        mixed, k = [], 0
+        for i, x in enumerate(chosen):
+            mixed.append(x)
+            if i % 2 == 1 and k < len(tls):
+                mixed.append(tls[k])
+                k += 1
+        chosen = mixed + tls[k:]
     inp = os.path.join(wd, "peer_schedules.jsonl")
     with open(inp, "w") as f:
         for ln, _ in chosen:
@@ -199,7 +231,7 @@ def run_real_peers(pid, tier, v):
         for x in fs:
             shape[x] = shape.get(x, 0) + 1
     out = os.path.join(wd, "peer_replay.json")
-    r = _run(pid, binp, inp, out, 8 if thorough else 6, 420 if thorough else 26)
+    r = _run(pid, binp, inp, out, 8, 480 if thorough else (32 if with_tls else 26))
     c = r["counters"]
     nv = _report(pid, v, r, wd, "peer")
     cases = r["cases"]
@@ -209,6 +241,12 @@ def run_real_peers(pid, tier, v):
             tier, cases, c.get("skipped", 0), c.get("bcast_small", 0), c.get("bcast_big", 0), c.get("membership_changes", 0),
             c.get("replaced_peer", 0), c.get("settle_timeout_cases", 0), c.get("median_latency_us", 0) / 1000.0,
             c.get("max_latency_ms_small", 0), c.get("max_latency_ms_big", 0), c.get("suspects", 0), inc, nv, pid))
+    if with_tls:
+        log("  real peers, TLS gossip transport: %d schedules, %d connection-reset faults (%d connections), %d small updates to a member after a reset "
+            "(%d deliveries); latency median small %.1f ms / oversized %.1f ms, max %d / %d ms" % (
+                c.get("tls_schedules", 0), c.get("op_resetin", 0), c.get("connections_reset", 0), c.get("small_after_reset", 0),
+                c.get("delivered_small_after_reset", 0), c.get("median_latency_us_tls_small", 0) / 1000.0,
+                c.get("median_latency_us_tls_big", 0) / 1000.0, c.get("max_latency_ms_tls_small", 0), c.get("max_latency_ms_tls_big", 0)))
     if not nv:
         if cases < total * 0.6:
             raise vlib.Inconclusive("real peers: only %d of %d schedules were replayed within the time budget" % (cases, total))
@@ -216,7 +254,8 @@ def run_real_peers(pid, tier, v):
             raise vlib.Inconclusive("real peers: %d of %d schedules inconclusive: %s" % (inc, cases, "; ".join(r.get("notes") or [])[:1500]))
         need = ["ready_checked", "settle_timeout_cases", "flush_after_settle"] if pid == "C08" else \
                ["bcast_small", "bcast_big", "delivered_small", "delivered_big", "replaced_peer", "big_after_membership_change",
-                "op_left", "op_crashed", "op_join", "join_checked"]
+                "op_left", "op_crashed", "op_join", "join_checked",
+                "tls_schedules", "op_resetin", "small_after_reset", "delivered_small_after_reset", "delivered_tls_big"]
         missing = [k for k in need if not c.get(k)]
         if missing:
             raise vlib.Inconclusive("real peers: the replayed schedules never reached: %s" % missing)
@@ -248,6 +287,14 @@ def run_real_peers(pid, tier, v):
         "median_delivery_latency_ms": c.get("median_latency_us", 0) / 1000.0,
         "p99_delivery_latency_ms": c.get("p99_latency_ms", 0),
         "max_delivery_latency_ms": {"small": c.get("max_latency_ms_small", 0), "oversized": c.get("max_latency_ms_big", 0)},
+        "tls_transport": {
+            "schedules": c.get("tls_schedules", 0), "connection_reset_faults": c.get("op_resetin", 0),
+            "connections_reset": c.get("connections_reset", 0), "small_updates_after_reset": c.get("small_after_reset", 0),
+            "deliveries_small_after_reset": c.get("delivered_small_after_reset", 0),
+            "deliveries_small": c.get("delivered_tls_small", 0), "deliveries_oversized": c.get("delivered_tls_big", 0),
+            "median_delivery_latency_ms": {"small": c.get("median_latency_us_tls_small", 0) / 1000.0, "oversized": c.get("median_latency_us_tls_big", 0) / 1000.0},
+            "max_delivery_latency_ms": {"small": c.get("max_latency_ms_tls_small", 0), "oversized": c.get("max_latency_ms_tls_big", 0)},
+        },
         "violations_reported": nv,
         "samples": r.get("samples", [])[:1],
     }
@@ -260,6 +307,10 @@ ASSUMPTIONS = [
     "other size class merged; for a small update additionally <= 3 gossip targets and 4 further small updates missing too)",
     "real-peer stage: push/pull interval 1 h so that the periodic full-state exchange cannot hide a lost update inside a schedule; "
     "packet loss and the bounded oversize queue are exercised by the in-memory stages (Gossip.tla), not here",
+    "real-peer stage, TLS gossip transport: throw-away CA and one certificate for 127.0.0.1 generated at run time, mutual TLS, every peer "
+    "advertised behind a TCP forwarder of the harness; the fault is a reset (RST) of all established connections towards one running member; "
+    "a small update after a reset is judged like any other (the one packet whose write finds the reset may be lost: 4 later small updates "
+    "must be lost too for a verdict)",
 ]
 
 
